@@ -375,6 +375,8 @@ def crash_programs():
     P['crash-after-reopen'] = [('ks', A), ('insert', A, k1, '31'), ('reopen',), X, ('insert', A, k2, '32'), X, ('reopen',), ('remove', A, k1), X]
     from . import c10
     P['digit-boundary'] = c10.digit_boundary_program()
+    from . import c04
+    P['batch-half-flushed'] = c04.half_flushed_batch_program(crash=True)
     P['kvsep'] = [('ks', A, 'kvsep=1'), ('insert', A, k1, '31' * 40), X, ('rotate', A), ('flush',), X, ('insert', A, k1, '32' * 40), X, ('major_compact', A), X]
     return P
 
@@ -414,7 +416,10 @@ def run(ctx):
     c03.check_cuts(ctx, c03.SHAPES_QUICK[0], 0)
     if ctx.tier == 'thorough':
         c03.check_cuts(ctx, c03.SHAPES_QUICK[1], 1)
-    c10.check_maintenance(ctx, confirm=lambda: native_crash(ctx))
+    c10.check_maintenance(ctx, confirm=lambda: native_crash(ctx), with_reclaim=False)
+    # ... and on recovery applying exactly the records the tables do not cover yet, item by item (C04's replay rule, here for a batch over two keyspaces)
+    from . import c04
+    c04.check_two_item_batch(ctx, confirm=lambda: native_crash(ctx))
     ctx.assumptions += [
         'F1/F2: BufWriter::flush hands all buffered bytes to the OS in order; a process crash keeps what was handed to the OS (power loss: C09)',
         'E1: lsm-tree memtable inserts cannot fail; a flushed table contains only items that were applied to a memtable before',
